@@ -130,3 +130,100 @@ func VfC06_Parse() {
 		vfAssert(hC06Recomputed[k], hC06Same(re, want[k]))
 	}
 }
+
+// VfC06_ParseMore: further value-producing instruction kinds, among them the
+// ones whose result type depends on a trailing or leading clause of the text
+// (alloca address space, call with a spelled-out signature, variadic callee).
+//
+//vf:unwind 300
+//vf:steps 60000000
+func VfC06_ParseMore() {
+	nd := vfString("n", 1) // vector length digit
+	wd := vfString("w", 1) // bit width digit
+	ad := vfString("as", 1) // address space digit
+	vfAssume(vfAnd(nd[0] >= '1', nd[0] <= '9'))
+	vfAssume(vfAnd(wd[0] >= '2', wd[0] <= '9'))
+	vfAssume(vfAnd(ad[0] >= '1', ad[0] <= '9'))
+	scal := vfChoice("vscale", 2) == 1
+	vs := ""
+	if scal {
+		vs = "vscale x "
+	}
+	iw := "i" + wd
+	vi := "<" + vs + nd + " x " + iw + ">"
+	vf := "<" + vs + nd + " x float>"
+	agg := "{ " + iw + ", [3 x float] }"
+	src := "declare " + iw + " @g(" + iw + ")\n" +
+		"declare i32 @pf(i8*, ...)\n" +
+		"define void @f(" + vi + " %a, " + vf + " %x, " + iw + "* %p, " + agg + " %agg, i8* %va) {\n" +
+		"\t%i0 = alloca " + iw + ", addrspace(" + ad + ")\n" +
+		"\t%i1 = alloca " + vi + ", i32 2, align 8, addrspace(" + ad + ")\n" +
+		"\t%i2 = call " + iw + " (" + iw + ") @g(" + iw + " 1)\n" +
+		"\t%i3 = call i32 (i8*, ...) @pf(i8* null, " + iw + " 1)\n" +
+		"\t%i4 = atomicrmw add " + iw + "* %p, " + iw + " 1 seq_cst\n" +
+		"\t%i5 = va_arg i8* %va, " + vi + "\n" +
+		"\t%i6 = freeze " + vi + " %a\n" +
+		"\t%i7 = fneg " + vf + " %x\n" +
+		"\t%i8 = ptrtoint " + iw + "* %p to i64\n" +
+		"\t%i9 = insertvalue " + agg + " %agg, " + iw + " 1, 0\n" +
+		"\t%i10 = fptoui " + vf + " %x to " + vi + "\n" +
+		"\t%i11 = addrspacecast " + iw + "* %p to " + iw + " addrspace(" + ad + ")*\n" +
+		"\t%i12 = inttoptr i64 0 to " + vi + "*\n" +
+		"\t%i13 = load " + iw + ", " + iw + " addrspace(" + ad + ")* %i0\n" +
+		"\t%i14 = getelementptr " + vi + ", " + vi + " addrspace(" + ad + ")* %i1, i32 1\n" +
+		"\t%i15 = sitofp " + vi + " %a to " + vf + "\n" +
+		"\t%i16 = lshr " + vi + " %a, %a\n" +
+		"\t%i17 = frem " + vf + " %x, %x\n" +
+		"\tret void\n}\n"
+	m, err := ParseString("t.ll", src)
+	vfReach("C06.parsemore")
+	vfObserveStr("src", src)
+	vfAssert("C06.parsemore.accepted", err == nil)
+	if err != nil {
+		return
+	}
+	n, w, as := uint64(nd[0]-'0'), uint64(wd[0]-'0'), types.AddrSpace(ad[0]-'0')
+	it := types.NewInt(w)
+	vec := func(el types.Type) types.Type {
+		return &types.VectorType{Len: n, ElemType: el, Scalable: scal}
+	}
+	ptr := func(el types.Type, as types.AddrSpace) types.Type {
+		return &types.PointerType{ElemType: el, AddrSpace: as}
+	}
+	want := []types.Type{
+		ptr(it, as), ptr(vec(it), as), it, types.I32, it, vec(it), vec(it), vec(types.Float), types.I64,
+		types.NewStruct(it, types.NewArray(3, types.Float)), vec(it), ptr(it, as), ptr(vec(it), 0), it, ptr(vec(it), as),
+		vec(types.Float), vec(it), vec(types.Float),
+	}
+	insts := m.Funcs[2].Blocks[0].Insts
+	vfAssert("C06.parsemore.count", len(insts) == len(want))
+	if len(insts) != len(want) {
+		return
+	}
+	for k := range want {
+		attached := insts[k].(interface{ Type() types.Type }).Type()
+		vfAssert("C06.parsemore.attached", hC06Same(attached, want[k]))
+	}
+	// clear the cached types and let the IR library recompute them
+	for k := range want {
+		if hGenClearTyp(insts[k]) {
+			re := insts[k].(interface{ Type() types.Type }).Type()
+			vfAssert("C06.parsemore.recomputed", hC06Same(re, want[k]))
+		}
+	}
+	// the printed text keeps the types the input gave (uses are printed with the
+	// type of the value they refer to)
+	m2, err2 := ParseString("t.ll", m.String())
+	vfAssert("C06.parsemore.print-reparses", err2 == nil)
+	if err2 != nil {
+		return
+	}
+	insts2 := m2.Funcs[2].Blocks[0].Insts
+	vfAssert("C06.parsemore.print-count", len(insts2) == len(want))
+	if len(insts2) != len(want) {
+		return
+	}
+	for k := range want {
+		vfAssert("C06.parsemore.print-keeps-type", hC06Same(insts2[k].(interface{ Type() types.Type }).Type(), want[k]))
+	}
+}
